@@ -105,12 +105,23 @@ def dual_scenario(rng):
                 (i * 31 + j * 5 + ord(name)) & 0xFF
                 for j in range(n)).hex()])
         writes[name] = w_
-    conn = {'login': [['encrypt', {'bits': 1024, 'token_hex': 'aabbccdd',
-                                   'server_id': '-'}], ['success']],
-            'play': []}
+    conns = []
+    for name in ('A', 'B'):
+        # keep-alives arriving while the user threads write: the networking
+        # thread's own answers share the cipher stream with them
+        play = []
+        for i in range(rng.choice([0, 1, 3, 6])):
+            play.append(['ka', rng.choice([0, 1, 127, 128, 2**31 - 1,
+                                           rng.randrange(2**31)])])
+            play.append(['pause', rng.choice([50, 300, 2000])])
+        conns.append({'login': [['encrypt', {'bits': 1024,
+                                             'token_hex': 'aabbccdd',
+                                             'server_id': '-'}],
+                                ['success']],
+                      'play': play})
     return {
         'kind': 'dual', 'proto': proto, 'writes': writes,
-        'server': {'conns': [conn, copy.deepcopy(conn)]},
+        'server': {'conns': conns},
         'net': {'latency_us': rng.choice([50, 500])},
         'sched': {'granularity': rng.choice(['io', 'io', 'line']),
                   'max_steps': 600000},
@@ -210,7 +221,9 @@ def execute_dual(scenario, tape):
                     return None
                 w.wait_until(lambda: st['errs'] or (
                     mine() is not None and mine().play_frames >=
-                    len(scenario['writes'][name])), 60000000)
+                    len(scenario['writes'][name]) + len(
+                        [i for i in mine().beh.get('play', ())
+                         if i[0] == 'ka'])), 60000000)
                 st['closing' + name] = True
                 w.api('disconnect' + name, conn.disconnect)
             w.sim.spawn(user, 'user' + name)
@@ -247,6 +260,9 @@ def execute_dual(scenario, tape):
         want = [(ids['sb.play.plugin'],
                  wire.string(ch) + bytes.fromhex(hx))
                 for _m, ch, hx in scenario['writes'][name]]
+        want += [(ids['sb.play.keep_alive'],
+                  wire.i64(i[1]) if ids['later'][339] else wire.varint(i[1]))
+                 for i in app.beh.get('play', ()) if i[0] == 'ka']
         got = [(pid, bytes(body)) for _s, stt, pid, body, _m in app.frames
                if stt in ('play', 'paused')]
         if app.errors or sorted(got) != sorted(want):
